@@ -811,6 +811,12 @@ func (ex *Exec) copyOp(fr *Frame, c *ssa.CallCommon, args []Val, st *State, reac
 			Eq(Select(Select(nh, dArr), At(dst, iv)), srcAt))))
 		ex.vc.assume(Forall([]Bound{{"i?", SInt}}, Implies(Or(Lt(iv, SlOff(dst)), Ge(iv, Add(SlOff(dst), n))),
 			Eq(Select(Select(nh, dArr), iv), Select(Select(h, dArr), iv)))))
+		if !srcIsString {
+			// the same fact keyed by the absolute cell address (matches reads through any other view of the array)
+			ex.vc.assume(ForallPat([]Bound{{"i?", SInt}}, Implies(And(Le(SlOff(dst), iv), Lt(iv, Add(SlOff(dst), n))),
+				Eq(Select(Select(nh, dArr), iv), Select(Select(h, SlArr(src)), Add(Sub(iv, SlOff(dst)), SlOff(src))))),
+				[][]Term{{Select(Select(nh, dArr), iv)}}))
+		}
 		st.heaps[name] = nh
 		ex.noteWrite(name, dArr)
 		ex.mirrorView(dArr, name, st)
